@@ -197,7 +197,7 @@ def _stream_preserving(faults, w):
         site = next((s for s in same if s['key'] == k), None)
         if f[0] == 'debug':
             continue
-        if f[0] == 'dup' and site is not None and same and same[-1]['key'] == k:
+        if f[0] in ('dup', 'then_reset') and site is not None and same and same[-1]['key'] == k:
             continue
         if f[0] == 'trunc_close' and site is not None and site['label'] == 'versions_differ' and f[1] >= site['len'] - 1:
             continue
@@ -259,6 +259,9 @@ def judge_c19(res, arch, plan, rate):
         inits = [pk for pk in r.get('packets_in', []) if pk['type'] in (30, 32)]
         if r['index'] < init and kexmsgs and arch != 'G':
             probs.append(('kex-request-on-initial-connection', 'connection %d got %s' % (r['index'], [pk['type'] for pk in kexmsgs])))
+        types = [pk['type'] for pk in r.get('packets_in', [])]
+        if kexmsgs and (20 not in types or types.index(20) > min(types.index(t) for t in (30, 32, 34) if t in types)):
+            probs.append(('kex-request-without-preceding-kexinit', 'connection %d got %s' % (r['index'], types)))
         if len(inits) > 1 or len([pk for pk in kexmsgs if pk['type'] == 34]) > 1:
             probs.append(('multiple-exchanges-on-one-connection', 'connection %d got %s' % (r['index'], [pk['type'] for pk in kexmsgs])))
     # concurrency (sockets connected at the same time) and closure at exit
